@@ -169,6 +169,13 @@ def systematic(rng):
             nested = E(G.call(grp)) if wrap == "call" else E({"k": "if", "c": b(True), "th": grp, "el": None})
             P(G.assign("gA", {"k": "switch", "v": n(val), "body": [nested, M(n(50)), body[3], M(n(51)), body[4]]}), M(v("gA")))
             P(G.assign("gA", {"k": "switch", "v": n(val), "body": [body[3], nested, M(n(50))]}), M(v("gA")))
+    # every loop iteration is a scope of its own: it can be named again; a body without a value gives nil
+    P({"k": "foreach", "body": [{"k": "scopename", "s": "s"}, M(v("_x"))], "arr": A(n(1), n(2), n(3))}, M(n(9)))
+    P({"k": "for", "var": "_i", "from": n(0), "to": n(2), "body": [{"k": "scopename", "s": "s"}, M(v("_i"))]}, M(n(9)))
+    P(G.assign("gW", n(0)), {"k": "while", "c": [{"k": "scopename", "s": "c"}, E(G.binop("<", v("gW"), n(2)))], "body": [{"k": "scopename", "s": "b"}, G.assign("gW", G.binop("+", v("gW"), n(1))), M(v("gW"))]}, M(n(9)))
+    P(M({"k": "fcount", "body": [{"k": "scopename", "s": "s"}, E(G.binop(">", v("_x"), n(1)))], "arr": A(n(1), n(2), n(3))}))
+    P(M({"k": "fapply", "arr": A(n(1), n(2)), "body": [{"k": "scopename", "s": "s"}, G.assign("gA", v("_x"))]}), M(v("gA")))
+    P(M({"k": "fapply", "arr": A(n(1), n(2)), "body": []}), M(n(9)))
     # switch over strings: labels are compared exactly (also the letter case)
     S = lambda t: {"k": "str", "s": t}
     for val in ("b", "B", "c"):
